@@ -19,10 +19,12 @@ import (
 	"github.com/pingcap/log"
 	"github.com/tikv/pd/pkg/errs"
 	"github.com/tikv/pd/server/core"
+	"github.com/tikv/pd/server/kv"
 	"github.com/tikv/pd/server/schedule/placement"
 	"go.uber.org/zap"
 
 	"pdverif/internal/coqfmt"
+	"pdverif/internal/etcdx"
 	"pdverif/internal/kvx13"
 	"pdverif/internal/res"
 	"pdverif/internal/rng"
@@ -293,6 +295,29 @@ func newWorld() *world {
 	return &world{kv: k, st: core.NewStorage(k)}
 }
 
+// the same world over PD's etcd kv.Base (one embedded etcd per driver run, one root path per case)
+var (
+	etcdSrv  *etcdx.Etcd
+	etcdRoot int
+)
+
+func newWorldEtcd() *world {
+	if etcdSrv == nil {
+		e, err := etcdx.Start()
+		if err != nil {
+			panic(err)
+		}
+		etcdSrv = e
+	}
+	cli, _, err := etcdSrv.NewClient()
+	if err != nil {
+		panic(err)
+	}
+	etcdRoot++
+	k := kvx13.NewOn(kv.NewEtcdKVBase(cli, fmt.Sprintf("/c13/%d", etcdRoot)))
+	return &world{kv: k, st: core.NewStorage(k)}
+}
+
 func errRes(err error) string {
 	switch {
 	case err == nil:
@@ -314,6 +339,7 @@ func storeKey(g, i string) string {
 type stepOut struct {
 	opCoq, obsCoq, res string
 	live              *dumpInfo
+	nWrites           int
 }
 
 func (w *world) exec(o opJ) stepOut {
@@ -399,6 +425,7 @@ func (w *world) exec(o opJ) stepOut {
 	}
 	var out stepOut
 	out.res = resS
+	out.nWrites = len(writes)
 	out.opCoq = o.coq(writes)
 	live, liveTxt := "DNone", ""
 	if w.live != nil {
@@ -612,7 +639,7 @@ func (g *gen) next(malformed bool) opJ {
 		}
 	}
 	if o.isUpdate() && r.Pct(14) {
-		o.FaultN = 1 + r.Pick(60, 25, 15)
+		o.FaultN = 1 + r.Pick(40, 22, 14, 10, 8, 6)
 		o.FaultAfter = r.Pct(50)
 	}
 	return o
@@ -680,8 +707,135 @@ func (g *gen) learn(o opJ, ok bool) {
 	}
 }
 
+// ---------- systematic fault sweep: a storage failure at EACH write of a multi-write update ----------
+func countWrites(base []opJ, u opJ) (int, string) {
+	w := newWorld()
+	for _, o := range base {
+		w.exec(o)
+	}
+	out := w.exec(u)
+	return out.nWrites, out.res
+}
+
+func genSweep(r *rng.R) []caseJ {
+	g := &gen{r: r, known: map[[2]string]ruleJ{{"pd", "default"}: {G: "pd", I: "default", Role: "voter", Count: 3}}}
+	base := []opJ{{Kind: "restart", MaxReplicas: 3}}
+	wb := newWorld()
+	wb.exec(base[0])
+	for k := 0; k < 2+r.Intn(5); k++ {
+		o := g.next(false)
+		o.FaultN = 0
+		if o.Kind == "restart" {
+			continue
+		}
+		base = append(base, o)
+		g.learn(o, wb.exec(o).res == "ROk")
+	}
+	var u opJ
+	n := 0
+	for try := 0; try < 30 && n < 2; try++ {
+		switch r.Pick(30, 25, 25, 20) {
+		case 0:
+			b := g.bundle(g.someGroup())
+			u = opJ{Kind: "bundle", Bundle: &b}
+		case 1:
+			u = opJ{Kind: "batch"}
+			for i := 0; i < 2+r.Intn(3); i++ {
+				if r.Pct(65) {
+					ru := g.rule(g.someGroup())
+					u.Batch = append(u.Batch, bopJ{Add: &ru})
+				} else {
+					gg, ii := g.knownKey()
+					u.Batch = append(u.Batch, bopJ{G: gg, I: ii})
+				}
+			}
+		case 2:
+			u = opJ{Kind: "setrules"}
+			for i := 0; i < 2+r.Intn(3); i++ {
+				u.Rules = append(u.Rules, g.rule(g.someGroup()))
+			}
+		case 3:
+			u = opJ{Kind: "allbundles", OverrideAll: r.Pct(40)}
+			for i := 0; i < 1+r.Intn(2); i++ {
+				u.Bundles = append(u.Bundles, g.bundle(groupPool[(r.Intn(4)+i)%4]))
+			}
+		}
+		var res string
+		n, res = countWrites(base, u)
+		if res != "ROk" {
+			n = 0
+		}
+	}
+	var out []caseJ
+	for i := 1; i <= n; i++ {
+		for _, after := range []bool{false, true} {
+			f := u
+			f.FaultN, f.FaultAfter = i, after
+			re := u
+			re.Retry = true
+			ops := append(append([]opJ(nil), base...), f, re)
+			out = append(out, caseJ{Stream: "faultsweep", Ops: ops})
+		}
+	}
+	return out
+}
+
+// ---------- big configurations: the restart path pages through the storage (LoadRangeByPrefix) ----------
+// ids form strict-prefix chains (every key is a strict prefix of its successor), some with a 0x00 byte
+func chainID(head string, j int, nul bool) string {
+	id := head
+	for k := 0; k < j; k++ {
+		if nul && k%7 == 3 {
+			id += "\x00"
+		} else {
+			id += "1"
+		}
+	}
+	return id
+}
+
+func genBig(r *rng.R, etcd bool) caseJ {
+	c := caseJ{Stream: "bigload", Etcd: etcd}
+	if etcd {
+		c.Stream = "bigload-etcd"
+	}
+	ver := 1000
+	// several groups (their ids are strict prefixes of each other), in each a chain of rule ids
+	bulk := func(gids []string, head string, nul bool) opJ {
+		o := opJ{Kind: "setrules"}
+		for _, gid := range gids {
+			n := 33 + r.Intn(5)
+			for j := 0; j < n; j++ {
+				ver++
+				o.Rules = append(o.Rules, ruleJ{G: gid, I: chainID(head, j, nul), Index: j % 3, Start: "70", End: "71",
+					Role: []string{"voter", "learner", "follower"}[j%3], Count: 1, Ver: ver})
+			}
+		}
+		return o
+	}
+	c.Ops = append(c.Ops, opJ{Kind: "restart", MaxReplicas: 3})
+	c.Ops = append(c.Ops, bulk([]string{"g", "g1", "g10"}, "r", false)) // > 100 rules with pd/default
+	c.Ops = append(c.Ops, opJ{Kind: "restart", MaxReplicas: 3})
+	if !etcd { // the etcd variant stops at > 100 rules (same Storage code, cheaper Coq replay)
+		c.Ops = append(c.Ops, bulk([]string{"g100", "g11", "g2"}, "q", true)) // > 200 rules
+		c.Ops = append(c.Ops, opJ{Kind: "restart", MaxReplicas: 3})
+	}
+	// > 100 non-default groups: five chains of ids, some with a 0x00 byte (the key right after its parent)
+	gb := opJ{Kind: "allbundles"}
+	for f := 0; f < 5; f++ {
+		n := 21 + r.Intn(4)
+		for j := 0; j < n; j++ {
+			gb.Bundles = append(gb.Bundles, bundleJ{ID: chainID("h"+string(rune('a'+f)), j, f%2 == 0), Index: 1 + j%4})
+		}
+	}
+	c.Ops = append(c.Ops, gb)
+	c.Ops = append(c.Ops, opJ{Kind: "restart", MaxReplicas: 3})
+	return c
+}
+
 type caseJ struct {
 	Stream string `json:"stream"`
+	Etcd   bool   `json:"etcd,omitempty"` // run on PD's etcd kv.Base (embedded etcd) instead of the memory kv
 	Ops    []opJ  `json:"ops"`
 }
 
@@ -702,6 +856,9 @@ type caseOut struct {
 
 func runCase(R *res.Result, c caseJ, r *rng.R) (caseJ, caseOut) {
 	w := newWorld()
+	if c.Etcd {
+		w = newWorldEtcd()
+	}
 	var ops, obs []string
 	accepted, rejected, faulted, multi := 0, 0, 0, false
 	step := func(o opJ) stepOut {
@@ -781,13 +938,16 @@ func main() {
 	n := flag.Int("n", 300, "number of generated cases")
 	out := flag.String("out", ".", "output directory")
 	tier := flag.String("tier", "quick", "")
+	sweeps := flag.Int("sweeps", 12, "number of systematic fault sweeps (a failure at each write of a multi-write update, before/after, + retry)")
+	big := flag.Int("big", 1, "number of big-configuration cases (> 200 rules, > 100 groups, restarts) per kv backend")
+	etcdBig := flag.Bool("etcd", true, "also run the big cases on PD's etcd kv.Base")
 	corpus := flag.String("corpus", "", "json file: list of fixed cases run first")
 	replay := flag.String("replay", "", "json file: one case (or an evidence replay file) to run and print")
 	flag.Parse()
 	log.ReplaceGlobals(zap.NewNop(), nil)
 
 	R := res.New("C13", *seed, *tier)
-	R.Rule = "histories of 6..20 operations (SetRule 30%, DeleteRule 12%, SetRules 6%, Batch 10% incl. delete-by-prefix, SetRuleGroup 13%, " +
+	R.Rule = "streams: bigload (restart after > 100 / > 200 rules and > 100 groups whose ids form strict-prefix chains, on the memory kv and on PD's etcd kv.Base), faultsweep (a storage failure at EACH write of a multi-write update, before/after, then the retry), and random histories of 6..20 operations (SetRule 30%, DeleteRule 12%, SetRules 6%, Batch 10% incl. delete-by-prefix, SetRuleGroup 13%, " +
 		"DeleteRuleGroup 5%, SetGroupBundle 8%, SetAllGroupBundles 4%, DeleteGroupBundle 4%, restart 3%, foreign storage writes 5% in the " +
 		"malformed stream = 15% of the cases) over 4 groups x 5 rule ids, key ranges from the pool {'',10,20,2010,30,40,50} (whole space 50%, " +
 		"unbounded 25%, bounded 25%), 8% invalid rule contents, a storage fault at write 1..3 (before/after) on 14% of the updates, retried " +
@@ -845,9 +1005,23 @@ func main() {
 		}
 	} else {
 		master := rng.New(*seed)
+		for k := 0; k < *big; k++ {
+			emit(genBig(master.Fork(uint64(2000000+k)), false), nil)
+			if *etcdBig {
+				emit(genBig(master.Fork(uint64(3000000+k)), true), nil)
+			}
+		}
+		for k := 0; k < *sweeps; k++ {
+			for _, c := range genSweep(master.Fork(uint64(1000000 + k))) {
+				emit(c, nil)
+			}
+		}
 		for k := 0; k < *n; k++ {
 			r := master.Fork(uint64(k))
 			emit(genCase(r), r)
+		}
+		if etcdSrv != nil {
+			etcdSrv.Close()
 		}
 	}
 	if err := cf.Flush(); err != nil {
